@@ -114,6 +114,31 @@ def cyclic_dataset(rng, nmax=5):
     return D
 
 
+def chain_tie_dataset(rng, tries=400):
+    """a dataset + scheme in which three elements of one component can be tied two by two ALONG the chain id0-id1-id2 (tying costs no more
+    than either order) but not all together (id0 and id2 are strictly cheaper ordered).  Found by rejection sampling; the filter reads the
+    library's own cost table (an untrusted choice of inputs: the verdict on each case is the judge's)"""
+    from corankco.algorithms.pairwisebasedalgorithm import PairwiseBasedAlgorithm
+    for _ in range(tries):
+        n = rng.randint(3, 4)
+        names = list(range(n))
+        D = [gen.random_ranking(rng, names, rng.choice([1.0, 1.0, 0.8]), rng.choice([0.7, 0.5, 0.3])) for _ in range(rng.randint(3, 6))]
+        if not any(D):
+            continue
+        s = p_scheme(rng) if rng.random() < 0.7 else gen.GENERIC
+        try:
+            ds = Dataset.from_raw_list([[set(b) for b in r] for r in D])
+            if ds.nb_elements < 3:
+                continue
+            M = PairwiseBasedAlgorithm.pairwise_cost_matrix(ds.get_positions(), ScoringScheme(s))
+        except Exception:
+            continue
+        can = lambda i, j: M[i][j][2] <= min(M[i][j][0], M[i][j][1])
+        if can(0, 1) and can(1, 2) and not can(0, 2):
+            return D, s
+    return [[[0, 1], [2]], [[0], [1, 2]], [[0, 1], [2]], [[0], [1, 2]]], gen.UNIFYING_HALF
+
+
 def p_scheme(rng):
     p = rng.choice([0.375, 0.375, 0.5, 0.5, 0.75, 1.0, 0.25])
     fam = rng.choice(["unifying", "pseudo", "induced"])
